@@ -1,7 +1,11 @@
 //verif:pkg ds/priorityqueue
 package priorityqueue
 
-import "verifrt"
+import (
+	"sync"
+
+	"verifrt"
+)
 
 // Property C12 (PriorityQueue / generalheap): pops in priority order; removal handles are idempotent.
 
@@ -116,4 +120,57 @@ func H_C12_priorityqueue() {
 		items[v].live = false
 	}
 	verifrt.Assert(liveCount() == 0, "PriorityQueue.PopAll left elements behind")
+}
+
+// H_C12_priorityqueue_conc: a removal handle racing with a second call of the same handle or with Pop, on a
+// queue of three elements with symbolic priorities: afterwards exactly the elements that were removed/popped are
+// gone (a handle acts on its own element only, whatever the interleaving).
+//
+//verif:h prop=C12 preempt=2/3 cover=handle-handle,handle-pop
+func H_C12_priorityqueue_conc() {
+	pq := New[int, c12Prio]()
+	var removers [3]func()
+	for i := 0; i < 3; i++ {
+		removers[i] = pq.Push(i, c12Prio(verifrt.U8("prio")))
+	}
+	k := verifrt.Choose("which", 3)
+	mode := verifrt.Choose("mode", 2)
+	popped, pok := -1, false
+	var wg sync.WaitGroup
+	wg.Add(2)
+	go func() {
+		defer wg.Done()
+		verifrt.MustFinish()
+		removers[k]()
+	}()
+	go func() {
+		defer wg.Done()
+		verifrt.MustFinish()
+		if mode == 0 {
+			removers[k]()
+		} else {
+			popped, pok = pq.Pop()
+		}
+	}()
+	verifrt.MustFinish()
+	wg.Wait()
+	gone := [3]bool{}
+	gone[k] = true
+	if mode == 0 {
+		verifrt.Cover("handle-handle")
+	} else {
+		verifrt.Cover("handle-pop")
+		verifrt.Assert(pok && popped >= 0 && popped < 3, "PriorityQueue.Pop on a queue with at least two elements returned nothing")
+		gone[popped] = true
+	}
+	want := 0
+	for i := range gone {
+		if !gone[i] {
+			want++
+		}
+	}
+	verifrt.Assert(pq.Size() == want, "PriorityQueue: a removal handle racing with another call removed an element other than its own (or too few)")
+	for _, v := range pq.PopAll() {
+		verifrt.Assert(v >= 0 && v < 3 && !gone[v], "PriorityQueue: an element that was removed or popped is still queued")
+	}
 }
